@@ -453,7 +453,7 @@ surv0_pipe_recv_cb(void *arg)
 	// Best effort at delivery.  Discard if no context or context is
 	// unable to receive it.
 	if (((ctx = nni_id_get(&sock->surveys, id)) == NULL) ||
-	    (nni_lmq_full(&ctx->recv_lmq))) {
+	    (nni_clock() >= ctx->expire) || (nni_lmq_full(&ctx->recv_lmq))) {
 		nni_msg_free(msg);
 	} else if ((aio = nni_list_first(&ctx->recv_queue)) != NULL) {
 		nni_list_remove(&ctx->recv_queue, aio);
